@@ -284,6 +284,11 @@ impl<W: AsRef<[u64]>> JsonIndex<W> {
             return None;
         }
 
+        // Compare in usize before narrowing: `k as u32` would alias k = 2^32 + j
+        // to j and answer for the wrong rank.
+        if k >= *self.ib_rank.last()? as usize {
+            return None;
+        }
         let k32 = k as u32;
         let n = words.len();
 
@@ -402,6 +407,11 @@ impl<W: AsRef<[u64]>> JsonIndex<W> {
             return None;
         }
 
+        // Compare in usize before narrowing: `k as u32` would alias k = 2^32 + j
+        // to j and answer for the wrong rank.
+        if k >= *self.ib_rank.last()? as usize {
+            return None;
+        }
         let k32 = k as u32;
         let n = words.len();
 
